@@ -260,13 +260,14 @@ Section Natural.
     Proof.
       destruct r as [name type ips locals links ports resources conns rep constraints children].
       cbn [go_node]. intro H.
-      inv_bind H. rewrite (eval_constraints_nat _ _ _ Hb). cbn [bind].
-      inv_bind H. rewrite Hb0. cbn [bind].
+      inv_bind H. rewrite Hb. cbn [bind].
       inv_bind H. change (@nil (string * V)) with (venv []).
-      rewrite (compile_locals_nat _ _ _ _ _ Hb1). cbn [bind].
-      inv_bind H. rewrite <- venv_over.
-      assert (Hpm0 : (venv (over x1 inputs), map (fun c => (rname c, venv [])) children)
-                     = valpm (over x1 inputs, map (fun c => (rname c, [])) children)).
+      rewrite (compile_locals_nat _ _ _ _ _ Hb0). cbn [bind].
+      rewrite <- venv_over.
+      inv_bind H. rewrite (eval_constraints_nat _ _ _ Hb1). cbn [bind].
+      inv_bind H.
+      assert (Hpm0 : (venv (over x0 inputs), map (fun c => (rname c, venv [])) children)
+                     = valpm (over x0 inputs, map (fun c => (rname c, [])) children)).
       { unfold valpm; cbn. f_equal. rewrite map_map. reflexivity. }
       rewrite Hpm0, (compile_links_nat _ _ _ _ Hb2). cbn [bind].
       inv_bind H. rewrite (eval_ports_nat _ _ _ Hb3). cbn [bind].
